@@ -44,6 +44,24 @@ func Match(patterns []string, mode Mode, s string) (string, error) {
 	if mode&Suffix != 0 && mode&Prefix != 0 {
 		return "", NoMatch
 	}
+	if mode&Prefix != 0 && len(patterns) > 1 {
+		// the alternatives of a regexp are tried in order and the first one
+		// that matches wins: compare the matches of the patterns instead
+		if _, err := compile(patterns, mode); err != nil {
+			return "", err
+		}
+		var m string
+		err := error(NoMatch)
+		largest := mode&Smallest == 0 || mode&Largest != 0
+		for _, p := range patterns {
+			switch pm, perr := Match([]string{p}, mode, s); {
+			case perr != nil:
+			case err != nil, largest && len(pm) > len(m), !largest && len(pm) < len(m):
+				m, err = pm, nil
+			}
+		}
+		return m, err
+	}
 	rx, err := compile(patterns, mode)
 	if err != nil {
 		return "", err
